@@ -48,20 +48,20 @@ func plainAudit(m map[string]string) map[string]auditEntry {
 }
 
 var auditedC07 = map[string]auditEntry{
-	"semantic.alpineNumberComponent.Cmp:anc.original[0]": {reason: "components come from parseAlpineNumberComponents (each is a non-empty digit run accepted by convertToBigInt) or from Fetch's default \"0\""},
-	"semantic.alpineNumberComponent.Cmp:b.original[0]":   {reason: "same invariant as anc.original[0]"},
-	"semantic.compareRedHatComponents:a[ai:]":            {reason: "loop invariant ai <= len(a): ai only grows under ai < len(a) or while ranging over a[ai:]"},
-	"semantic.compareRedHatComponents:b[bi:]":            {reason: "loop invariant bi <= len(b), as for ai"},
-	"semantic.compareRedHatComponents:a[ai]":             {reason: "reached only after 'ai == len(a) || bi == len(b)' was false, with invariant ai <= len(a)"},
-	"semantic.mavenVersion.lessThan:mw.tokens[i]":        {reason: "i < max(len(mv.tokens), len(mw.tokens)) and i >= len(mv.tokens) imply i < len(mw.tokens) (max is not a difference constraint)"},
-	"semantic.mavenVersion.lessThan:mv.tokens[i]":        {reason: "symmetric case: i >= len(mw.tokens) implies i < len(mv.tokens)"},
+	"semantic.alpineNumberComponent.Cmp:anc.original[0]":          {reason: "components come from parseAlpineNumberComponents (each is a non-empty digit run accepted by convertToBigInt) or from Fetch's default \"0\""},
+	"semantic.alpineNumberComponent.Cmp:b.original[0]":            {reason: "same invariant as anc.original[0]"},
+	"semantic.compareRedHatComponents:a[ai:]":                     {reason: "loop invariant ai <= len(a): ai only grows under ai < len(a) or while ranging over a[ai:]"},
+	"semantic.compareRedHatComponents:b[bi:]":                     {reason: "loop invariant bi <= len(b), as for ai"},
+	"semantic.compareRedHatComponents:a[ai]":                      {reason: "reached only after 'ai == len(a) || bi == len(b)' was false, with invariant ai <= len(a)"},
+	"semantic.mavenVersion.lessThan:mw.tokens[i]":                 {reason: "i < max(len(mv.tokens), len(mw.tokens)) and i >= len(mv.tokens) imply i < len(mw.tokens) (max is not a difference constraint)"},
+	"semantic.mavenVersion.lessThan:mv.tokens[i]":                 {reason: "symmetric case: i >= len(mw.tokens) implies i < len(mv.tokens)"},
 	"semantic.newMavenVersion:rawTokens[i][prevIndex:transition]": {reason: "transitions are ascending offsets inside rawTokens[i] produced by mavenFindTransitions plus len(rawTokens[i]); prevIndex is the previous one", needs: []string{"call:semantic.mavenFindTransitions"}},
-	"semantic.newMavenVersion:tokens[:i]":                {reason: "trim loop: 0 < i <= len(tokens)-1 is maintained (i starts at len-1, only decreases; tokens shrinks by one exactly when i decreases)"},
-	"semantic.newMavenVersion:tokens[i + 1:]":            {reason: "same trim-loop invariant i <= len(tokens)-1"},
-	"semantic.newMavenVersion:tokens[i]":                 {reason: "same trim-loop invariant; inner loop tests i >= 0 first"},
-	"semantic.pyPIVersion.comparePre:pv.pre.letter[0]":   {reason: "default case is reached only with pre.number != nil; parseLetterVersion sets a non-empty letter whenever it sets a number", needs: []string{}},
-	"semantic.pyPIVersion.comparePre:pw.pre.letter[0]":   {reason: "same invariant as pv.pre.letter[0]"},
-	"semantic.removeZeros:segs[:max(i, 0)]":              {reason: "i starts at len(segs)-1, is only decremented, and incremented once right before break: i <= len(segs)"},
+	"semantic.newMavenVersion:tokens[:i]":                         {reason: "trim loop: 0 < i <= len(tokens)-1 is maintained (i starts at len-1, only decreases; tokens shrinks by one exactly when i decreases)"},
+	"semantic.newMavenVersion:tokens[i + 1:]":                     {reason: "same trim-loop invariant i <= len(tokens)-1"},
+	"semantic.newMavenVersion:tokens[i]":                          {reason: "same trim-loop invariant; inner loop tests i >= 0 first"},
+	"semantic.pyPIVersion.comparePre:pv.pre.letter[0]":            {reason: "default case is reached only with pre.number != nil; parseLetterVersion sets a non-empty letter whenever it sets a number", needs: []string{}},
+	"semantic.pyPIVersion.comparePre:pw.pre.letter[0]":            {reason: "same invariant as pv.pre.letter[0]"},
+	"semantic.removeZeros:segs[:max(i, 0)]":                       {reason: "i starts at len(segs)-1, is only decremented, and incremented once right before break: i <= len(segs)"},
 }
 
 // discarded-ok sites: value, _ := f(...) where failure yields nil and the value is stored/used.
